@@ -11,8 +11,10 @@ import (
 	"path/filepath"
 	"reflect"
 	"regexp"
+	"runtime"
 	"sort"
 	"strings"
+	"sync"
 	"unsafe"
 
 	"github.com/200sc/bebop"
@@ -850,6 +852,19 @@ func execConcurrent(n *Node, sc *Scenario) *Violation {
 			simrt.SetMapOrder(simrt.OrderNative, 0)
 		}
 	}
+	// the library starts goroutines of its own (the instrumenter counted go statements):
+	// they would call into the baton from outside it. The callers then run FREE, as plain
+	// goroutines on several processors, and only the outcome oracles judge.
+	freeRun := n.Batch.Params["go_stmts"] > 0
+	free := func(v *Violation) *Violation {
+		if v != nil && freeRun {
+			if v.Facts == nil {
+				v.Facts = map[string]string{}
+			}
+			v.Facts["free_running"] = "true"
+		}
+		return v
+	}
 	// reference: each task alone, canonical map order, on its own fresh File
 	refs := make([]taskResult, len(sc.Tasks))
 	est := 0
@@ -860,7 +875,9 @@ func execConcurrent(n *Node, sc *Scenario) *Violation {
 			return nil
 		}
 		simrt.SetMapOrder(simrt.OrderCanonical, 0)
-		simrt.AttachScheduler(func(int) { est++ })
+		if !freeRun {
+			simrt.AttachScheduler(func(int) { est++ })
+		}
 		refs[i] = runTask(ts, f, text)
 		simrt.DetachScheduler()
 		simrt.SetMapOrder(simrt.OrderNative, 0)
@@ -885,9 +902,9 @@ func execConcurrent(n *Node, sc *Scenario) *Violation {
 			same = false
 		}
 		if !same {
-			return &Violation{Class: "nondeterministic-output", Signature: "nondeterministic|history|" + ts.Op,
+			return free(&Violation{Class: "nondeterministic-output", Signature: "nondeterministic|history|" + ts.Op,
 				Detail: fmt.Sprintf("%s (mask %05b, combined=%v) returns a different result after earlier calls in the same process than as the first call of a fresh process (%d vs %d bytes, err %v vs nil=%v)", ts.Op, ts.Mask, ts.Combined, len(ref.Out), fr.OutLen, ref.Err, fr.ErrNil),
-				Facts:  map[string]string{"op": ts.Op, "phase": "history"}}
+				Facts:  map[string]string{"op": ts.Op, "phase": "history"}})
 		}
 	}
 	// repetition under other map orders: byte-identical output ("never produces a diff")
@@ -898,7 +915,23 @@ func execConcurrent(n *Node, sc *Scenario) *Violation {
 		simrt.SetMapOrder(simrt.OrderNative, 0)
 		if v := compareResult("repeat", ts, &refs[i], &again); v != nil {
 			v.Facts["map_order"] = fmt.Sprint(ts.MapOrder.Strategy)
-			return v
+			return free(v)
+		}
+		if freeRun {
+			// several more repetitions on several processors: goroutines started by the call
+			// interleave differently from one execution to the next
+			prev := runtime.GOMAXPROCS(4)
+			for k := 0; k < 6; k++ {
+				f, text, _ := prepareFile(prog.Bop, withImport, spare)
+				simrt.SetMapOrder(simrt.OrderCanonical, 0)
+				again := runTask(ts, f, text)
+				simrt.SetMapOrder(simrt.OrderNative, 0)
+				if v := compareResult("repeat", ts, &refs[i], &again); v != nil {
+					runtime.GOMAXPROCS(prev)
+					return free(v)
+				}
+			}
+			runtime.GOMAXPROCS(prev)
 		}
 	}
 	// the concurrent phase on one shared File
@@ -907,6 +940,44 @@ func execConcurrent(n *Node, sc *Scenario) *Violation {
 	spareBefore := map[string]uint64{}
 	spareSlots(reflect.ValueOf(*shared), "File", spareBefore, 0)
 	globBefore := globalsSnapshot()
+	if freeRun {
+		prev := runtime.GOMAXPROCS(4)
+		res := make([]taskResult, len(sc.Tasks))
+		var wg sync.WaitGroup
+		simrt.SetMapOrder(simrt.OrderCanonical, 0)
+		for i := range sc.Tasks {
+			wg.Add(1)
+			go func(i int) {
+				defer wg.Done()
+				ts := sc.Tasks[i]
+				for k := 0; k <= ts.Repeat; k++ {
+					r := runTask(ts, shared, text)
+					if k == 0 || compareResult("concurrent", ts, &refs[i], &r) != nil {
+						res[i] = r
+					}
+				}
+			}(i)
+		}
+		wg.Wait()
+		simrt.SetMapOrder(simrt.OrderNative, 0)
+		runtime.GOMAXPROCS(prev)
+		sc.Extra["steps"], sc.Extra["trace_hash"] = "0", "free-running"
+		for i := range res {
+			if res[i].Panic != "" {
+				return free(&Violation{Class: "panic", Signature: "panic|concurrent|" + sc.Tasks[i].Op, Detail: clipStr(res[i].Panic, 300), Facts: map[string]string{"op": sc.Tasks[i].Op}})
+			}
+		}
+		if visibleHash(*shared) != before {
+			return free(&Violation{Class: "input-mutated", Signature: "input-mutated|concurrent", Detail: "the File shared by the callers changed while they ran (free-running callers)",
+				Facts: map[string]string{"import": sc.Extra["import"]}})
+		}
+		for i := range sc.Tasks {
+			if v := compareResult("concurrent", sc.Tasks[i], &refs[i], &res[i]); v != nil {
+				return free(v)
+			}
+		}
+		return nil
+	}
 	b := &baton{back: make(chan int), maxSteps: 60*est + 200_000}
 	seed := uint64(atoiDefault(sc.Extra["seed"], 1))
 	b.rng = prng.New(seed)
